@@ -369,6 +369,10 @@ async def scenario(world: WorldA) -> None:
                         if r.verb == "HELLO" and r.src[0] == SPA_IP:
                             delivered += sum(1 for (es, t) in r.deliveries if any(a - 1e-6 <= t <= b + 1e-6 for a, b in locs))
                     sig += ":discovery-starved" if delivered == 0 else ":although-hello-replies-arrived"
+                    # ... and did that pass keep asking for the whole discovery timeout before it gave up?
+                    disc = table_max(tables, "DISCOVERY_TIMEOUT_IN_SECONDS")
+                    if locs and (locs[-1][1] - locs[-1][0]) < disc - 0.3 - world.clock.stall_between(locs[-1][0], locs[-1][1]):
+                        sig += ":gave-up-before-the-discovery-timeout"
                 if st != "ERROR_SPA_NOT_FOUND":
                     # history signature: which pump phase overlapped which user operation, and how -- the operation began while the pump was
                     # inside the phase ("reset-began-during"), or the pump started the phase while the operation was in progress, i.e.
